@@ -104,7 +104,7 @@ class Run:
     # -- Kani ----------------------------------------------------------------------------------
     def full_name(self, h):
         crate, rel_file, _harness_rel, modname = self.spec["inject"][h.mod]
-        return module_path(rel_file, modname) + "::" + h.name
+        return module_path(rel_file, modname.split(" ")[-1]) + "::" + h.name
 
     def harnesses(self):
         hs = [h for h in self.spec["harnesses"] if self.tier in h.tiers]
